@@ -756,6 +756,10 @@ func resultDestField(call *ssa.Call) string {
 				if f := follow(x, depth+1); f != "" {
 					return f
 				}
+			case *ssa.ChangeType:
+				if f := follow(x, depth+1); f != "" {
+					return f
+				}
 			case *ssa.Store:
 				if fa, ok := x.Addr.(*ssa.FieldAddr); ok && x.Val == v {
 					return fieldName(fa.X.Type(), fa.Field)
